@@ -1,35 +1,34 @@
+// c30: SQL formatting round-trips through the parser (sqlparser.Parse / sqlparser.String).
 package main
 
 import (
 	"fmt"
 	"os"
-	"reflect"
 
-	"github.com/cube2222/octosql/parser/sqlparser"
+	"verifharness/lib"
 )
 
-func try(s string) {
-	defer func() {
-		if r := recover(); r != nil {
-			fmt.Printf("%-70s => PANIC %v\n", s, r)
-		}
-	}()
-	t1, err := sqlparser.Parse(s)
-	if err != nil {
-		fmt.Printf("%-70s => parse error: %v\n", s, err)
-		return
+func repoDir() string {
+	if r := os.Getenv("VERIF_REPO"); r != "" {
+		return r
 	}
-	p := sqlparser.String(t1)
-	t2, err := sqlparser.Parse(p)
-	if err != nil {
-		fmt.Printf("%-70s => printed %q reparse error: %v\n", s, p, err)
-		return
-	}
-	fmt.Printf("%-70s => %q equal=%v\n", s, p, reflect.DeepEqual(t1, t2))
+	return "/repo"
 }
 
 func main() {
-	for _, s := range os.Args[1:] {
-		try(s)
+	f := lib.ParseFlags()
+	switch f.Cmd {
+	case "gen":
+		if err := runGen(repoDir(), f.Out); err != nil {
+			fmt.Fprintln(os.Stderr, err)
+			os.Exit(2)
+		}
+	case "probe":
+		for _, s := range f.Args {
+			probe(s)
+		}
+	default:
+		fmt.Fprintln(os.Stderr, "c30: gen | run | probe")
+		os.Exit(2)
 	}
 }
